@@ -352,7 +352,8 @@ class Sym:
     def __ne__(s, o):
         return s._cmp(o, "ne")
 
-    __hash__ = None
+    def __hash__(s):
+        return hash(("Sym", s.n.id))          # structural: equal nodes hash equal; `==` on a hash hit still goes through the solver
 
     def __abs__(s):
         sg = ground_sign(s.n)
